@@ -70,6 +70,21 @@ CLAIMED = {
          "resulting contents are compared with the model for modelled calls."),
    note=BASE_NOTE + "Calls outside DtypeCases.dstep are checked only through the observation predicate (the property itself), "
         "not through a model; HistogramCollection constructor/add refusals are exercised in C12's cases."),
+ "C08": dict(
+   technique="Coq proof of the document round trip (of_doc (to_doc h) = h for every well-formed histogram, same document again, member-wise for collections) and of the version order (total order on PEP 440 keys; refused iff older) + extracted-model correspondence on documents, readers and version decisions",
+   text=("Theorems: for every well-formed histogram of the model (any class / number of axes / binning types / dtype / contents / "
+         "errors / missed incl. NaN markers / keep_missed / JSON metadata) reading its document succeeds and returns the same "
+         "class, binnings, dtype, contents, squared errors, missed, keep_missed, axis names and metadata (key by key); the second "
+         "serialisation is the same document; collections member by member; the version comparison is a total order and a document "
+         "is refused iff the running version is older. Every generated histogram (direct constructors and facade routes, then "
+         "to_json / parse_json / to_json / save+load_json) is snapshotted before and after through public and private "
+         "attributes; the extracted predicate demands identical snapshots (bit-identical doubles as exact rationals), identical "
+         "second document, == and same class; physt's document is compared with the model's to_doc, physt's reader with the "
+         "model's of_doc on physt's own document and on hand-written / damaged documents; version decisions with the model order."),
+   note=BASE_NOTE + "Modelled, not verified: json.dumps/json.loads text layer (float repr, NaN/Infinity tokens, escapes), numpy "
+        "tolist/asarray, packaging.version parsing (its parsed components are the model's input). includes_right_edge / align of "
+        "binnings and Statistics are not part of the documents (not named by the property; observed but not judged). "
+        "Finding F27 (float128 cannot be serialised) is listed in known_findings.json."),
  "C19": dict(
    technique="Coq proofs over a per-context binding + token-stack model (restoration for every balanced body and on raise, isolation by induction over schedules, spawn snapshot) + extracted-model correspondence under forced interleavings of real threads / asyncio tasks",
    text=("Theorems: enter/exit restores the previous value and nesting for EVERY balanced body (nested blocks, assignments inside, "
